@@ -1042,3 +1042,61 @@ Definition saslerr_eqb (a b : saslerr) : bool :=
   N.eqb (se_cond a) (se_cond b) && beq (se_lang a) (se_lang b) && beq (se_text a) (se_text b).
 
 Definition saslerr_c : codec saslerr := mkcodec (fun _ v => one (saslerr_tr v)) (fun _ => saslerr_un) saslerr_eqb.
+
+(* ================= decoding into a destination that already holds a value ================= *)
+
+(* crypto.Key.UnmarshalXML re-uses the KeyID buffer of the destination:
+     expectedLen := DecodedLen(len(inner))
+     if len(k.KeyID) < expectedLen { k.KeyID = make([]byte, expectedLen) }
+     decoded := Decode(k.KeyID, inner)             (writes the first [decoded] bytes)
+     if decoded < len(k.KeyID) { k.KeyID = k.KeyID[:decoded] }
+   [guard_on_explen] is the variant that trims only when decoded < expectedLen *)
+Definition decoded_len (n : nat) : nat := n / 4 * 3.
+
+Definition key_buf (guard_on_explen : bool) (old data : bytes) (explen : nat) : bytes :=
+  let buf := if length old <? explen then repeat x00 explen else old in
+  let w := data ++ skipn (length data) buf in
+  if (if guard_on_explen then length data <? explen else length data <? length buf)
+  then firstn (length data) w else w.
+
+Definition ckey_un_into_gen (g : bool) (old : ckey) (o : oracles) (t : tree) : res ckey :=
+  match t with
+  | Elem n _ kids =>
+      let tr := beq (nlocal n) (str "trust") in
+      if negb tr && negb (beq (nlocal n) (str "distrust")) then Err
+      else if negb (forallb (fun k => match k with Text _ => true | _ => false end) kids) then Err
+      else
+        let inner := direct_text kids in
+        bind (if is_nil inner then Ok [] else o_b64dec o inner) (fun id =>
+        Ok (mkckey tr (key_buf g (k_id old) id (decoded_len (length inner)))))
+  | _ => Err
+  end.
+
+Definition ckey_un_into := ckey_un_into_gen false.
+
+(* crypto.HashOutput.UnmarshalXML: the buffer is grown to the decoded length,
+   written from the start and always cut to the number of bytes decoded *)
+Definition hash_buf (old data : bytes) (l : nat) : bytes :=
+  firstn (length data) (data ++ skipn (length data) (old ++ repeat x00 (l - length old))).
+
+Definition hashout_un_into (old : hashout) (o : oracles) (t : tree) : res hashout :=
+  match t with
+  | Elem _ attrs kids =>
+      bind (hash_algo attrs) (fun h =>
+      match kids with
+      | [] => Err
+      | Text b :: _ => bind (if is_nil b then Ok [] else o_b64dec o b) (fun out =>
+                       Ok (mkhashout h (hash_buf (ho_out old) out (decoded_len (length b)))))
+      | _ => Err
+      end)
+  | _ => Err
+  end.
+
+(* saslerr.Error.UnmarshalXML: the condition comes from a local zero struct; language and text
+   are assigned only when there is a text element *)
+Definition saslerr_un_into (old : saslerr) (t : tree) : res saslerr :=
+  bind (unmarshal_struct None saslerr_fields (mksaslraw 0 []) t) (fun r =>
+  Ok (match sw_texts r with
+      | [] => mksaslerr (sw_cond r) (se_lang old) (se_text old)
+      | (l, d) :: _ => mksaslerr (sw_cond r) l d
+      end)).
